@@ -68,9 +68,9 @@ func checkC12(c *Ctx) {
 	c.Explain = "C12 decided on the structure every playback relies on: the merge of the per-track play lists uses a key that is only the absolute time, so it must be a stable sort (file order among equal times); only messages that pass the playability test are queued, each once, and the test rejects every FF-leading message and accepts every channel message (abstract interpretation over all 256 first bytes); port selection is track's port, else port -1, else skip; every Send is preceded in the same call by Sleep(scheduled - last) and the schedule is absTime in microseconds (abstract interpretation of the play step); the track iterator calls the callback in track order then event order. Not decided: wall-clock instants, merge order across tracks at equal time."
 	c.Trusted = []string{"go/ssa", "sort.Stable keeps equal keys in input order", "time.Sleep(d) sleeps at least d", "E-abs"}
 	c.Rule("C12.1", "stable merge: in the MultiPlay simulation with a feed that is not in time order (two events of track 0 at one time, an earlier event on track 1) the events are played in time order, the two same-time events in file order, and the merge leaves no order unspecified (the sort is interpreted with the code's own comparison: stable, or without possibly-equal keys)", 1)
-	c.Rule("C12.2", "only playable, each once: the append to the play list is dominated by the playability test and is not in a loop of the callback; the test rejects FF-leading messages and accepts channel messages; the send loop calls the play step once per element; the play step calls Send exactly once", 3)
-	c.Rule("C12.3", "port mapping: port of the track if mapped, else port -1 if mapped, else the event is skipped", 3)
-	c.Rule("C12.4", "never early: Send is preceded by Sleep(1us*absTime - last) in the same call and the step returns 1us*absTime", 1)
+	c.Rule("C12.2", "only playable, each once: in the MultiPlay simulation every channel message of a mapped track is sent exactly once and a meta event never; the playability test rejects FF-leading messages and accepts channel messages (256 first bytes x 4 length classes)", 3)
+	c.Rule("C12.3", "port mapping (MultiPlay simulation, also for a second playback on the same reader with another map): port of the track if mapped, else port -1 if mapped, else the event is skipped", 3)
+	c.Rule("C12.4", "never early (MultiPlay simulation): every Send is preceded by exactly one Sleep(1000*absTime[us] - time of the previous sent event)", 1)
 	c.Rule("C12.5", "file order in: simulated on two tracks of two events, the track iterator hands the callback every event once, tracks then events in file order", 1)
 
 	c.Rule("C12.7", "selection: a reader made by the constructor ReadTracksFrom (file parser replaced by a prepared two-track file) with the selections {0}, {1}, {0,1}, {5}, {-3,2}, {1,7} hands over exactly the events of the selected tracks the file has, once each, in file order — nothing at all when no selected track exists; Play(out) plays every track on the given port (map key -1)", 4)
